@@ -566,9 +566,9 @@ pub fn core_enumeration(thorough: bool, prop: Prop) -> Vec<(&'static str, crate:
         // experimentation aid: "a,b" = maximal sizes of the two enumerations
         let ns: Vec<usize> = v.split(',').filter_map(|x| x.parse().ok()).collect();
         return vec![
-            ("all", Alphabet { types: vec![T::Int, T::Pair, T::Fun], with_print: true, with_if: true, with_call: true, with_exit: true }, ns[0]),
-            ("int-pair", Alphabet { types: vec![T::Int, T::Pair], with_print: true, with_if: false, with_call: false, with_exit: false }, ns[1]),
-            ("int-opt", Alphabet { types: vec![T::Int, T::Opt], with_print: true, with_if: false, with_call: false, with_exit: false }, *ns.get(2).unwrap_or(&ns[1])),
+            ("all", Alphabet { types: vec![T::Int, T::Pair, T::Fun], with_print: true, with_if: true, with_call: true, with_exit: true, if2: vec![] }, ns[0]),
+            ("int-pair", Alphabet { types: vec![T::Int, T::Pair], with_print: true, with_if: false, with_call: false, with_exit: false, if2: vec![] }, ns[1]),
+            ("int-opt", Alphabet { types: vec![T::Int, T::Opt], with_print: true, with_if: false, with_call: false, with_exit: false, if2: vec![] }, *ns.get(2).unwrap_or(&ns[1])),
         ];
     }
     // C03 only runs the two Core machines; C04/C12 add shrinking (+ linearization and three checkers)
@@ -579,10 +579,14 @@ pub fn core_enumeration(thorough: bool, prop: Prop) -> Vec<(&'static str, crate:
         (true, _) => (13, 15),
     };
     vec![
-        ("all", Alphabet { types: vec![T::Int, T::Pair, T::Fun], with_print: true, with_if: true, with_call: true, with_exit: true }, a),
-        ("int-pair", Alphabet { types: vec![T::Int, T::Pair], with_print: true, with_if: false, with_call: false, with_exit: false }, b),
+        ("all", Alphabet { types: vec![T::Int, T::Pair, T::Fun], with_print: true, with_if: true, with_call: true, with_exit: true, if2: vec![] }, a),
+        ("int-pair", Alphabet { types: vec![T::Int, T::Pair], with_print: true, with_if: false, with_call: false, with_exit: false, if2: vec![] }, b),
         // a two-constructor data type: two-clause cases, critical pairs that shrinking lifts
-        ("int-opt", Alphabet { types: vec![T::Int, T::Opt], with_print: true, with_if: false, with_call: false, with_exit: false }, b + 1),
+        ("int-opt", Alphabet { types: vec![T::Int, T::Opt], with_print: true, with_if: false, with_call: false, with_exit: false, if2: vec![] }, b + 1),
+        // two-operand conditionals of all six sorts (effects in both operands, in the branches)
+        ("int-cmp", Alphabet { types: vec![T::Int], with_print: true, with_if: false, with_call: false, with_exit: true, if2: vec![0, 1, 2, 3, 4, 5] }, a - 1),
+        // a constructor with a constructor-typed argument (constructor applications nest)
+        ("int-pair-wrap", Alphabet { types: vec![T::Int, T::Pair, T::Wrap], with_print: true, with_if: false, with_call: false, with_exit: false, if2: vec![] }, b - 2),
     ]
 }
 
